@@ -1640,7 +1640,15 @@ func genPush(r *common.Rand, data []byte) Push {
 		}
 		p.Script = chunk(r, stream[:cut], zeros)
 	case k < 13: // trailing bytes
-		p.Script = chunk(r, append(append([]byte(nil), stream...), randBytes(r, 1+r.Intn(3))...), zeros)
+		if r.Chance(1, 2) { // ... that come right after a 0-byte read at offset Size
+			p.Script = append(chunk(r, stream, zeros), Ev{Kind: 'Z'})
+			if r.Chance(1, 3) {
+				p.Script = append(p.Script, Ev{Kind: 'Z'})
+			}
+			p.Script = append(p.Script, Ev{Kind: 'D', Data: randBytes(r, 1+r.Intn(3))})
+		} else {
+			p.Script = chunk(r, append(append([]byte(nil), stream...), randBytes(r, 1+r.Intn(3))...), zeros)
+		}
 	case k < 15: // one byte flipped
 		bad := append([]byte(nil), stream...)
 		if len(bad) > 0 {
